@@ -191,6 +191,13 @@ pub fn c10_str_vs_bytes_body<S: Src>(s: &mut S) {
     same_as_slice!(t, x, p.parse(st));
 }
 
+// (IoInput: tried once more in the build phase with a hand-written `Read + Seek` over a slice, four CONCRETE lengths
+// 0..=3 and the grammar `(any any).and_is(any) then any?` — out of memory at 14 GB after 508 s (BufReader's 8 KiB
+// buffer initialisation and io::Error plumbing); IoInput stays not applicable, see DESIGN 10.2.)
+
+// (Graphemes: tried once more in the build phase, ASCII only — up to 2 characters from {a, CR, LF}, `any*.count()` against
+// "CR LF is one cluster": timeout at 900 s (unicode-segmentation's cursor state machine); Graphemes stays not applicable.)
+
 crate::harnesses! {
     c10_stream_pulls [6] = c10_stream_pulls_body;
     c10_iter_input [6] = c10_iter_input_body;
